@@ -42,7 +42,7 @@ WEIGHTS = {
             "report": 4, "tick": 1, "rebuild": 0, "poke": 2, "abort_sim": 1},
     "C19": {"find": 1, "redesign": 1, "sim": 2, "size": 1, "regen": 1, "report": 5, "tick": 2, "rebuild": 0, "other": 1.5, "poke": 1.5,
             "other_leap": 0.7},
-    "C01": {"find": 2, "redesign": 2, "abort_find": 2, "other": 1, "nominal": 2, "rebuild": 2, "tick": 0, "reconf": 2},
+    "C01": {"find": 2, "redesign": 2, "abort_find": 2, "other": 1.5, "nominal": 2, "rebuild": 2, "tick": 0, "reconf": 3},
     "C02": {"find": 2, "redesign": 1, "abort_find": 1, "nominal": 1, "rebuild": 1, "reconf": 1},
     "C05": {"find": 2, "redesign": 1, "abort_find": 1, "nominal": 1, "rebuild": 1, "ghe_new": 2, "size": 1, "regen": 1, "sim": 1},
     "C20": {"find": 1, "twin": 4, "redesign": 1, "other": 2, "reconf": 2},
@@ -202,6 +202,12 @@ def draw_plan(rng: random.Random, prop: str, tier: str = "quick", methods=None, 
         # histories in which a process-global leak is plausible end with a comparison against a pristine interpreter
         ops.append({"op": "find", "mgr": "A"})
         ops.append({"op": "pristine", "mgr": "A"})
+    if prop in ("C01", "C05") and any(o["op"] in ("other", "reconf") for o in ops) and rng.random() < 0.6:
+        # the returned design re-simulated by a brand-new evaluator in a pristine interpreter (an in-process re-simulation is
+        # served by the same process-wide caches as the search was)
+        if ops[-1]["op"] not in ("find", "reconf", "redesign", "nominal"):
+            ops.append({"op": "find", "mgr": "A"})
+        ops.append({"op": "pristine_resim", "mgr": "A"})
     if prop in ("C12", "C19") and not any(o["op"] == "report" for o in ops):
         ops.append({"op": "report", "mgr": "A", "dir": "rend", "suffix": "", "other_prepares_in_between": rng.random() < 0.6,
                     "rewrite": rng.random() < 0.35})
@@ -224,6 +230,22 @@ def make_variant(rng: random.Random, cfg: dict, k=None) -> dict:
     k = k or rng.choice([1, 1, 1, 1, 2, 3])
     chosen = rng.sample(names, k)
     v = copy.deepcopy(cfg)
+    if k == 1 and rng.random() < 0.5 and chosen[0] not in ("geometry", "pipe_borehole", "loads"):
+        # the finest variant: exactly one number (or flag) of one section differs - what a cache whose key forgets
+        # a single field would confuse with the base configuration
+        sec = GROUPS[chosen[0]][0]
+        keys = [kk for kk in cfg[sec] if cfg[sec][kk] != other[sec].get(kk, cfg[sec][kk]) and kk not in ("fluid_name",)]
+        if sec == "simulation":
+            keys = [kk for kk in keys if kk in ("num_months", "max_eft", "min_eft", "max_boreholes", "continue_if_design_unmet")]
+            if "num_months" in cfg[sec] and rng.random() < 0.5:
+                other[sec]["num_months"] = rng.choice([m for m in (12, 24, 36, 60) if m != cfg[sec]["num_months"]])
+                keys = ["num_months"]
+        if keys:
+            kk = rng.choice(sorted(keys))
+            v[sec][kk] = copy.deepcopy(other[sec][kk])
+            v["variant_of"] = [f"{sec}.{kk}"]
+            v.pop("target", None)
+            return v
     for g in chosen:
         for sec in GROUPS[g]:
             v[sec] = copy.deepcopy(other[sec])
@@ -576,6 +598,19 @@ def _check_find(ctx: Ctx, i, op, out, cfg):
         over = mx - sim["max_eft"]
         under = sim["min_eft"] - mn
         exc_t = max(over, under)
+        if prop == "C01" and not out["escape"] and any(x in ctx.shape for x in ("reconf", "other", "nominal", "rebuild", "poke")):
+            # ... and by an evaluator built from the *requested* configuration (the returned object could be consistent
+            # with itself and still belong to an earlier configuration of this manager)
+            rg = ctx.ref.fresh_ghe(cfg, g.gFunction.bore_locations, g.fieldSpecifier, h0=g._verif_h0)
+            r2 = _sim_result(rg, "HYBRID", h)
+            ctx.bump("c01_designs_checked_with_fresh_evaluator")
+            if "exc" not in r2:
+                e_f = max(r2["max"] - sim["max_eft"], sim["min_eft"] - r2["min"])
+                if e_f > TOL:
+                    ctx.violation(Violation("C01", "returned_design_infeasible",
+                                            f"{nbh} bh @ {h:.4f} m simulated by a fresh evaluator for the requested configuration: "
+                                            f"excess {e_f:.5f} K > 1e-3 ({method}, {oc}) after {ctx.shape}", site=f"{method}:fresh"),
+                                  i, {"after": _history_kind(ctx)})
         if prop == "C01" and not out["escape"]:
             ctx.bump("c01_designs_checked")
             if exc_t > TOL:
@@ -585,9 +620,13 @@ def _check_find(ctx: Ctx, i, op, out, cfg):
                                         site=f"{method}:{oc}"), i, {"after": _history_kind(ctx)})
         if prop == "C05" and not out["escape"]:
             ctx.bump("c05_designs_checked")
-            if h > sim["min_height"] and exc_t < -TOL:
-                ctx.violation(Violation("C05", "height_oversized", f"excess({nbh}@{h:.4f})={exc_t:.5f} < -1e-3 with H>min "
-                                                                    f"({method})", site=method), i, {"mode": "real"})
+            over, e2 = _oversized(g, sim, h, exc_t)
+            if e2 is not None and not over:
+                ctx.bump("probe:root_at_a_jump_of_the_excess")
+            if over:
+                ctx.violation(Violation("C05", "height_oversized", f"excess({nbh}@{h:.4f})={exc_t:.5f} < -1e-3 with H>min, and "
+                                                                    f"still {e2:.5f} one millimetre lower ({method})", site=method),
+                              i, {"mode": "real"})
             if h < sim["max_height"] and exc_t > TOL:
                 ctx.violation(Violation("C05", "height_not_root_infeasible", f"excess({nbh}@{h:.4f})={exc_t:.5f} > 1e-3 with "
                                                                               f"H<max ({method})", site=method), i, {"mode": "real"})
@@ -596,6 +635,27 @@ def _check_find(ctx: Ctx, i, op, out, cfg):
                 pass  # the tracker does not carry borehole counts; clause (i) is decided in E3
     if prop == "C20":
         _check_flow_records(ctx, i, cfg, mgr)
+
+
+def _oversized(g, sim, h, e) -> tuple:
+    """The sized height over-satisfies the limits: the excess is below -1e-3 K at the returned height *and still* below
+    -1e-3 K a little under it (delta = 1 mm, far above the root solver's 1e-6 tolerances).  The second evaluation is
+    needed because the excess is not continuous in the height (the short-time-step model changes its number of time
+    steps): brentq then converges to the jump, where |excess| can be tens of mK although no smaller height is feasible."""
+    from ghedesigner.enums import TimestepType
+
+    if not (h > sim["min_height"] and e < -TOL):
+        return False, None
+    delta = max(1.0e-3, 20.0 * (1.0e-6 + 1.0e-6 * h))
+    h2 = max(sim["min_height"], h - delta)
+    g.bhe.b.H = h2
+    with Quiet():
+        mx, mn = g.simulate(method=TimestepType.HYBRID)
+    e2 = max(mx - sim["max_eft"], sim["min_eft"] - mn)
+    g.bhe.b.H = h
+    with Quiet():
+        g.simulate(method=TimestepType.HYBRID)  # restore the object's state
+    return e2 < -TOL, e2
 
 
 def _history_kind(ctx: Ctx) -> str:
@@ -871,9 +931,13 @@ def op_size(ctx: Ctx, i, op):
         e = max(mx - sim["max_eft"], sim["min_eft"] - mn)
         h = got["H"]
         ctx.bump("c05_sizings_checked")
-        if sim["min_height"] < h and e < -TOL:
+        over, e2 = _oversized(g, sim, h, e)
+        if e2 is not None and not over:
+            ctx.bump("probe:root_at_a_jump_of_the_excess")
+        if over:
             ctx.violation(Violation("C05", "height_oversized", f"size() after {ctx.shape[:-1]} returns {h:.4f} m with excess {e:.5f} "
-                                                                f"< -1e-3 and H > min", site="size_op"), i, {"mode": "real"})
+                                                                f"< -1e-3 (still {e2:.5f} one millimetre lower) and H > min",
+                                    site="size_op"), i, {"mode": "real"})
         if h < sim["max_height"] and e > TOL:
             ctx.violation(Violation("C05", "height_not_root_infeasible", f"size() after {ctx.shape[:-1]} returns {h:.4f} m with excess "
                                                                           f"{e:.5f} > 1e-3 and H < max", site="size_op"), i, {"mode": "real"})
@@ -1036,6 +1100,77 @@ def op_pristine(ctx: Ctx, i, op):
         ctx.violation(Violation("C13", "find_differs_from_pristine_process",
                                 f"after {ctx.shape[:-1]} (and whatever this worker ran before) the result differs from a fresh "
                                 f"manager in a new process in {diff}", site="pristine"), i, {"after": _history_kind(ctx)})
+
+
+def op_pristine_resim(ctx: Ctx, i, op):
+    import os
+    import subprocess
+    import sys
+
+    from .kernel import PINNED_ENV, VERIF_DIR
+
+    name = op["mgr"]
+    st = ctx.state.get(name)
+    g = _ghe_of(ctx, name)
+    if g is None or st.get("touched"):
+        ctx.log.add("pristine_resim", None, "skipped")
+        return
+    cfg = st["cfg"]
+    sim = cfg["simulation"]
+    h = float(g.bhe.b.H)
+    delta = max(1.0e-3, 20.0 * (1.0e-6 + 1.0e-6 * h))
+    job = {"cfg": cfg, "coords": [list(map(float, c)) for c in g.gFunction.bore_locations], "spec": str(g.fieldSpecifier),
+           "h0": g._verif_h0, "heights": [h, max(sim["min_height"], h - delta)]}
+    f = ctx.root / f"resim_{i}.json"
+    f.write_text(json.dumps(job))
+    env = dict(os.environ)
+    env.update(PINNED_ENV)
+    env.update({"PYTHONHASHSEED": "1", "GHE_VERIF_PINNED": "1", "VERIF_NO_MEMO": "1"})
+    p = subprocess.run([sys.executable, str(VERIF_DIR / "run.py"), "_resim", str(f)], env=env, capture_output=True, text=True,
+                       timeout=900)
+    line = [ln for ln in p.stdout.splitlines() if ln.startswith("RESIM ")]
+    if p.returncode != 0 or not line:
+        raise RuntimeError(f"pristine re-simulation subprocess failed: {p.stdout[-500:]} {p.stderr[-1500:]}")
+    res = json.loads(line[-1][6:])
+    ctx.bump("pristine_subprocess_resimulations")
+    ctx.log.add("pristine_resim", [h], res)
+    (mx, mn), (mx2, mn2) = res
+    e = max(mx - sim["max_eft"], sim["min_eft"] - mn)
+    e2 = max(mx2 - sim["max_eft"], sim["min_eft"] - mn2)
+    out = st["last"]
+    oc = outcome_class(cfg, out)
+    method = cfg["geometry"]["method"]
+    nbh = len(job["coords"])
+    if ctx.prop == "C01" and not out.get("escape") and e > TOL:
+        ctx.violation(Violation("C01", "returned_design_infeasible",
+                                f"{nbh} bh @ {h:.4f} m simulated by a brand-new evaluator in a new process: max EFT {mx:.4f} (limit "
+                                f"{sim['max_eft']}), min EFT {mn:.4f} (limit {sim['min_eft']}): excess {e:.5f} K > 1e-3 ({method}, {oc}) "
+                                f"after {ctx.shape[:-1]}", site=f"{method}:pristine"), i, {"after": _history_kind(ctx)})
+    if ctx.prop == "C05" and not out.get("escape"):
+        if h > sim["min_height"] and e < -TOL and e2 < -TOL:
+            ctx.violation(Violation("C05", "height_oversized", f"excess({nbh}@{h:.4f})={e:.5f} (still {e2:.5f} one millimetre lower) in a "
+                                                                f"new process after {ctx.shape[:-1]} ({method})", site=f"{method}:pristine"),
+                          i, {"mode": "real"})
+        if h < sim["max_height"] and e > TOL:
+            ctx.violation(Violation("C05", "height_not_root_infeasible", f"excess({nbh}@{h:.4f})={e:.5f} > 1e-3 with H<max in a new "
+                                                                          f"process after {ctx.shape[:-1]} ({method})",
+                                    site=f"{method}:pristine"), i, {"mode": "real"})
+
+
+def resim_main(path: str) -> int:
+    """`run.py _resim <job.json>`: (max, min) EFT of a brand-new GHE for the given field at the given heights."""
+    worker_init()
+    job = json.loads(Path(path).read_text())
+    g = REF.fresh_ghe(job["cfg"], job["coords"], job["spec"], h0=job["h0"])
+    out = []
+    for h in job["heights"]:
+        r = _sim_result(g, "HYBRID", h)
+        if "exc" in r:
+            print("RESIM-ERROR", r)
+            return 1
+        out.append([r["max"], r["min"]])
+    print("RESIM " + json.dumps(out))
+    return 0
 
 
 def fresh_main(path: str) -> int:
@@ -1427,7 +1562,7 @@ def op_twin(ctx: Ctx, i, op):
 
 
 OPS = {"build": op_build, "find": op_find, "redesign": op_redesign, "nominal": op_nominal, "abort_find": op_abort_find,
-       "other": op_other, "sim": op_sim, "size": op_size, "abort_size": op_abort_size, "pristine": op_pristine, "reconf": op_reconf, "ghe_new": op_ghe_new, "abort_sim": op_abort_sim, "poke": op_poke, "other_leap": op_other_leap, "regen": op_regen, "tick": op_tick, "report": op_report,
+       "other": op_other, "sim": op_sim, "size": op_size, "abort_size": op_abort_size, "pristine": op_pristine, "reconf": op_reconf, "ghe_new": op_ghe_new, "abort_sim": op_abort_sim, "poke": op_poke, "other_leap": op_other_leap, "pristine_resim": op_pristine_resim, "regen": op_regen, "tick": op_tick, "report": op_report,
        "twin": op_twin}
 
 
